@@ -532,7 +532,41 @@ pub fn gen(seed: u64, n: usize, kind: &str, out: &str) {
     let mut c = Ctx { g: Gen::new(seed ^ if kind == "db" { 0x5eed_db } else { 0x5eed_d0 }), db: kind == "db" };
     let mut w = BufWriter::new(std::fs::File::create(out).unwrap());
     for id in 0..n {
-        if kind == "dm" {
+        if kind == "dm" && id % 8 == 5 {
+            // wide entities: many existing fields, then one version adding several (short ids cross 99 -> 100,
+            // numeric vs lexical order of the ids differ), restart on the same text, a second peer on the last text
+            writeln!(w, "case id={} kind=dm n=2", id).unwrap();
+            let n0 = 55 + c.g.below(20);
+            let mk = |i: usize, g: &mut Gen| AField {
+                name: format!("w{}", i),
+                ty: if g.chance(1, 2) { Ty::Int } else { Ty::Str },
+                nullable: true,
+                dflt: None,
+                deprecated: false,
+            };
+            let mut fields: Vec<AField> = vec![];
+            for i in 0..n0 {
+                let f = mk(i, &mut c.g);
+                fields.push(f);
+            }
+            let mut v: Version = vec![ANs {
+                name: if c.g.chance(1, 2) { "".into() } else { "app".into() },
+                ents: vec![AEntity { name: "W".into(), deprecated: false, full_text: true, fields, indexes: vec![] }],
+            }];
+            writeln!(w, "ver i=0 v={}", enc_version(&v)).unwrap();
+            let rounds = 1 + c.g.below(3);
+            for _ in 0..rounds {
+                let add = 2 + c.g.below(9);
+                for _ in 0..add {
+                    let i = v[0].ents[0].fields.len();
+                    let f = mk(i, &mut c.g);
+                    v[0].ents[0].fields.push(f);
+                }
+                writeln!(w, "ver i=0 v={}", enc_version(&v)).unwrap();
+                writeln!(w, "ver i=0 v={}", enc_version(&v)).unwrap();
+            }
+            writeln!(w, "ver i=1 v={}", enc_version(&v)).unwrap();
+        } else if kind == "dm" {
             let n_models = if c.g.chance(1, 3) { 2 } else { 1 };
             writeln!(w, "case id={} kind=dm n={}", id, n_models).unwrap();
             let with_sys = c.g.chance(1, 4);
@@ -631,6 +665,7 @@ pub fn gen(seed: u64, n: usize, kind: &str, out: &str) {
                         writeln!(w, "start i={} v={}", i, enc_version(&accepted)).unwrap();
                     }
                 }
+                writeln!(w, "conf i=0").unwrap();
                 for l in get_lines(0, &accepted) {
                     writeln!(w, "{}", l).unwrap();
                 }
@@ -638,6 +673,7 @@ pub fn gen(seed: u64, n: usize, kind: &str, out: &str) {
                     for i in 0..n_inst {
                         writeln!(w, "start i={} v={}", i, enc_version(&accepted)).unwrap();
                     }
+                    writeln!(w, "conf i=0").unwrap();
                     for l in get_lines(0, &accepted) {
                         writeln!(w, "{}", l).unwrap();
                     }
